@@ -14,12 +14,13 @@ Plain == {[s |-> "decl", x |-> "a", v |-> "1"], [s |-> "decl", x |-> "b", v |-> 
           [s |-> "set", x |-> "a", v |-> "2"],
           [s |-> "putlit", v |-> "1"], [s |-> "putvar", x |-> "a"],
           [s |-> "echo"], [s |-> "deffn"], [s |-> "call"], [s |-> "del", x |-> "a"], [s |-> "fail"],
-          [s |-> "pragma"], [s |-> "ext"]}
+          [s |-> "pragma"], [s |-> "ext"], [s |-> "extreg"]}
 More  == {[s |-> "decl", x |-> "a", v |-> "2"], [s |-> "set", x |-> "b", v |-> "1"],
-          [s |-> "putvar", x |-> "b"], [s |-> "del", x |-> "b"]}
+          [s |-> "putvar", x |-> "b"], [s |-> "del", x |-> "b"], [s |-> "extunreg"]}
 Bads(ds) == {[s |-> "bad", d |-> d] : d \in ds}
 QuickDefects == {"unclosed-quote", "unclosed-brace", "stray-paren", "use-undeclared", "set-undeclared",
-                 "if-no-body", "try-alone", "tmp-top-level", "del-non-local", "use-undeclared-in-fn"}
+                 "if-no-body", "try-alone", "tmp-top-level", "del-non-local", "use-undeclared-in-fn",
+                 "modvar-registered"}
 StmtsDef == IF Wide THEN Plain \cup More \cup Bads(Defects) ELSE Plain \cup Bads(QuickDefects)
 
 EmitT == PrintT(ToJson(last'))
